@@ -110,16 +110,17 @@ Theorem failed_conversion_changes_neither_side :
 Proof. exact failed_step_changes_nothing. Qed.
 Print Assumptions failed_conversion_changes_neither_side.
 
-(** The invariant behind the next theorem (consistent registry, contract ids handed out once, one
-    ledger entry per holder) holds at genesis and after every history of arbitrary messages. *)
+(** The invariant behind the next theorem (consistent registry, contract ids handed out once and
+    indexed to the token that carries them, one ledger entry per holder) holds at genesis and after every history of arbitrary messages. *)
 Theorem registry_invariant_reachable :
   forall p balances stake_supply reg (ms : list msg), RegInv (run (genesis p balances stake_supply reg) ms).
 Proof. intros. apply run_RegInv, genesis_RegInv. Qed.
 Print Assumptions registry_invariant_reachable.
 
-(** Sequences mixing conversions in both directions, successful and failed, for any tokens, by
-    any senders to any receivers, with the EVM double misbehaving in any way: for every token
-    bound to a contract, native supply + ERC20 supply is what it was. *)
+(** Sequences mixing conversions in both directions — messages and swap-to-native hook calls —
+    successful and failed, for any tokens, by any senders to any receivers, with the EVM double
+    misbehaving in any way: for every token bound to a contract, native supply + ERC20 supply is
+    what it was. *)
 Theorem conversions_conserve_total :
   forall (ms : list msg) (s : state) (d : name) (t : token),
     RegInv s -> forallb conversion ms = true -> token_by_minunit s d = Some t -> t_contract t <> 0 ->
@@ -182,14 +183,16 @@ Example c10_history_nonvacuous :
                 FromErc20 0 0 (6, 4) 1;               (* the sender holds no ERC20: fails *)
                 EvmMode 1; ToErc20 0 0 (6, 4) 5;      (* the contract reverts: fails after the native burn *)
                 EvmMode 0; FromErc20 1 101 (6, 4) 5;  (* blocked receiver: fails after the ERC20 burn *)
-                ToErc20 1 1 (7, 4) 30 ] in
+                ToErc20 1 1 (7, 4) 30;
+                HookToNative 1 1 0 1000000;           (* holder 1 swaps 1 unit back to actor 0 through the hook: ok *)
+                HookToNative 1 1 101 5 ] in           (* blocked receiver: fails after the contract's burn *)
   let s1 := run s0 ms0 in
   let s2 := run s1 conv in
   forallb conversion conv = true
-  /\ codes s0 ms0 = [0; 0; 0; 0] /\ codes s1 conv = [0; 1; 0; 1; 0; 1; 0; 1; 0]
-  /\ supply_of s1 (6, 4) = 100000000 /\ supply_of s2 (6, 4) = 75000000 /\ erc20_total s2 1 = 25000000
+  /\ codes s0 ms0 = [0; 0; 0; 0] /\ codes s1 conv = [0; 1; 0; 1; 0; 1; 0; 1; 0; 0; 1]
+  /\ supply_of s1 (6, 4) = 100000000 /\ supply_of s2 (6, 4) = 76000000 /\ erc20_total s2 1 = 24000000
   /\ supply_of s2 (7, 4) = 70 /\ erc20_total s2 2 = 30
   /\ codes s2 [SwapFee 0 (-2) (6, 4) 2500001] = [0]
-  /\ supply_of (run s2 [SwapFee 0 (-2) (6, 4) 2500001]) (6, 4) = 75000000 - 2000000
+  /\ supply_of (run s2 [SwapFee 0 (-2) (6, 4) 2500001]) (6, 4) = 76000000 - 2000000
   /\ supply_of (run s2 [SwapFee 0 (-2) (6, 4) 2500001]) (7, 4) = 70 + 1.
 Proof. cbv zeta. repeat split; vm_compute; reflexivity. Qed.
